@@ -18,8 +18,8 @@ CLAIMED = {
  'C18': ('proof', 'Theorems nfa_union_spec, nfa_concat_spec, nfa_repetition_spec (valid result, epsilon preserved, language = union / concatenation / Kleene star) for disjoint operands and any fresh state; nfa_union_spec_eps / nfa_concat_spec_eps for operands with DIFFERENT epsilon symbols (exact condition: the epsilon of the first operand is not an input symbol of the second) and nfa_*_eps_clash otherwise (the constructor assertion fails); genFresh_fresh (the generated name is never an operand state, whatever the counter), nfa_union_history_indep.', '6 C18'),
  'C04': ('proof', 'Theorems table_exact / minimizeTable_spec (table filling), quotient_spec (Moore refinement), hopcroft_spec / hopcroft_terminates (Hopcroft with the stale waiting-set entries of the code, every pop order): each routine terminates within its fuel and returns a valid DFA over the same alphabet whose states are exactly the Myhill-Nerode classes of ALL input states (DFA.IsNerode), hence same language, pairwise distinguishable states, size = number of classes (which lies between the class counts of reachable and of all states). With print_state_set names: minimize/quotient/hopcroft_named_clean (full statement for non-empty comma-free state names) and minimize_name_collision_witness (recorded finding minimize-class-name-collision).', '6 C04'),
  'C06': ('proof', 'Theorems regexpToNfa_spec (Thompson composition with generated names and the shared alphabet accumulator: valid NFA, language = denoted language, all word lengths), toGnfa_spec, rip_spec, rip_label_lang, toRegexp_lang (state elimination in EVERY order yields an expression denoting exactly L(D)).', '6 C06'),
- 'C10': ('proof', 'Theorems pda_oneAccepting_spec, pda_emptyStack_spec / pda_emptyStackS_spec (with the drain state: same language and acceptance only with the empty stack), pda_pushPopS_spec, tripleCfg_sound / tripleCfg_complete / tripleCfg_lang (Sipser Lemma 2.27 for the model of the triple construction); the end-to-end composition pda_toCfg_lang (state names without an apostrophe; otherwise the recorded finding pda2cfg-variable-name-collision).', '6 C10'),
- 'C12': ('proof', 'Theorems compare_none_iff / compare_extra / compare_missing (language comparison: empty feedback iff equal; reported word genuine, right polarity, minimal length, extra before missing) and chk_*_sound for every object-level checker model (language-from-words, accept/reject lists, three products, complement, reverse, minimal, NFA->DFA, CYK table, derivations, Chomsky phases): verdict OK implies the exercise criterion. TEXT level (Model/CheckText.lean = library parsers o checker o verdict): complement/product/reverse/minimal/nfa2dfa/dfa2regexp/cyk/derivation/chomsky_text_sound with no hypothesis other than that the verdict is OK (validity and duplicate-freeness of parser results are proved); the whole pipeline is tied to the Python checkers on every (instance, answer) pair. The generated ANTLR regexp parser recovers from syntax errors; the Lean parser is strict, texts it rejects are outside the dfa2regexp tie.', '6 C12'),
+ 'C10': ('proof', 'Theorems pda_oneAccepting_spec, pda_emptyStack_spec / pda_emptyStackS_spec (with the drain state: same language and acceptance only with the empty stack), pda_pushPopS_spec, tripleCfg_sound / tripleCfg_complete / tripleCfg_lang (Sipser Lemma 2.27 for the model of the triple construction); the end-to-end composition pda_toCfg_lang (state names without an apostrophe; otherwise the recorded finding pda2cfg-variable-name-collision). Bridge (Mathlib): pda_accepts_iff_mathlib_cfg / pda_language_isContextFree state the PDA language through Mathlib\'s ContextFreeGrammar.language via the proved conversion.', '6 C10'),
+ 'C12': ('proof', 'Theorems compare_none_iff / compare_extra / compare_missing (language comparison: empty feedback iff equal; reported word genuine, right polarity, minimal length, extra before missing) and chk_*_sound for every object-level checker model (language-from-words, accept/reject lists, three products, complement, reverse, minimal, NFA->DFA, CYK table, derivations, Chomsky phases): verdict OK implies the exercise criterion. TEXT level (Model/CheckText.lean = library parsers o checker o verdict): complement/product/reverse/minimal/nfa2dfa/dfa2regexp/cyk/derivation/chomsky_text_sound with no hypothesis other than that the verdict is OK (validity and duplicate-freeness of parser results are proved); the whole pipeline is tied to the Python checkers on every (instance, answer) pair. The generated ANTLR regexp parser recovers from syntax errors; the Lean parser is strict, texts it rejects are outside the dfa2regexp tie. The language-file, accept/reject-list and word-list checkers (dfa/nfa/cfg) are modelled on text as well, with their own soundness theorems (C12d, C12e, C12f).', '6 C12'),
  'C15': ('proof', 'Theorems dfa_simulate_valid, nfa_simulate_valid, nfa_simulate_some_iff (a genuine accepting run is produced, in finite time, exactly for accepted words, every pop order; generic back-pointer search findPath_sound/none/total), pda_simulate_valid / _accepts / _none_iff, cfg_derive_valid / cfg_derive_rejects (leftmost and rightmost derivations from the CYK table). PDA termination is the partial clause pda_simulate_terminates_partial (finite epsilon-reachable universe).', '6 C15'),
  'C20': ('proof', 'Theorems isomorphic1_iff, isomorphic_iff (both routines terminate within their fuel and answer True exactly when the reachable parts are isomorphic, every exploration order), iso_symm, iso_lang, iso_rename, isomorphic_agree.', '6 C20'),
  'C13': ('proof', 'Theorems own_product_ok, own_complement_ok, own_reverse_ok, own_minimal_quotient_ok, own_minimal_hopcroft_ok, own_language_ok, own_chomsky_ok (+ own_chomsky_struct_ok, own_chomsky_ok_le3): the object-level checker models accept the object the generator function returns; own_nfa2dfa_ok, own_cyk_ok, own_derivation_ok, own_dfa2regexp_ok, own_minimal_*_ok_clean; TEXT level (arbitrary reference text that parses, printed key re-parsed): own_{complement,product,reverse,minimal,nfa2dfa,dfa2regexp,cyk,derivation}_text_ok. Four requested statements were refuted formally (*_stmt_false); each refutation replays on the real library. Tie: apply_command of notebooks/make_notebook.py on generated references + the shipped notebooks + the answer-key printer models. Five recorded findings (KNOWN_FINDINGS.json), each exercised by a fixed witness on every run. Chomsky phases at text level: tie only.', '6 C13'),
